@@ -65,7 +65,7 @@ func (t *fnTrans) call(ins ssa.Instruction, c *ssa.CallCommon, res ssa.Value) {
 		return
 	}
 	// bind arguments
-	env := &specEnv{t: t, vars: map[string]Val{}, lvs: map[string]*LVal{}, cur: t.st, old: t.st, pkg: t.eng.pkgOf(ct)}
+	env := &specEnv{t: t, vars: map[string]Val{}, lvs: map[string]*LVal{}, cur: t.st, old: t.st, pkg: t.eng.pkgOf(ct), callee: true}
 	var pnames []string
 	var args []ssa.Value
 	if kind == "invoke" {
@@ -170,7 +170,16 @@ func (t *fnTrans) call(ins ssa.Instruction, c *ssa.CallCommon, res ssa.Value) {
 			cenv.vars["callee_"+k] = v
 		}
 		t.bindLocals(cenv)
+		inLoop := false
+		for _, li := range t.loops {
+			if li.body[t.cur] {
+				inLoop = true
+			}
+		}
 		for i, cl := range cls {
+			if (cl.Site == "inloop" && !inLoop) || (cl.Site == "outloop" && inLoop) {
+				continue
+			}
 			label := cl.Label
 			if label == "" {
 				label = fmt.Sprintf("atcall.%d", i+1)
@@ -1173,8 +1182,8 @@ func (t *fnTrans) frameCheck(x *ssa.Return, env *specEnv) {
 	sortStrings(names)
 	for _, hn := range names {
 		cur := t.st.heaps[hn]
-		if hn == "$top" || hn == "$held" || strings.HasPrefix(hn, "CL.") || strings.HasPrefix(hn, "G.") {
-			continue
+		if hn == "$top" || hn == "$held" || strings.HasPrefix(hn, "CL.") || strings.HasPrefix(hn, "G.") || strings.HasPrefix(hn, "$iter.") {
+			continue // $iter.*: the visited-key sets of the function's own map iterations (not caller-visible)
 		}
 		hs := t.eng.heapSort[hn]
 		ent := t.heapGet(t.entry, hn, hs)
